@@ -25,7 +25,10 @@ def run(ctx):
     traces = []
     for i in range(60 if q else 1000):
         depth = rnd.choice([1, 1, 2, 2, 3])
-        mm = gen.rand_module(rnd, cl["MetaModule"], spec, depth=depth, in_project=False)
+        if i % 6 == 5:      # user-defined controllers chained through nested MetaModules onto controllers of different kinds
+            mm = gen.chain_meta(rnd, spec)
+        else:
+            mm = gen.rand_module(rnd, cl["MetaModule"], spec, depth=depth, in_project=False)
         if i % 4 == 3 and mm.user_defined_controllers > 1:       # lower the count on a live object
             mm.user_defined_controllers = rnd.randrange(0, mm.user_defined_controllers)
         n = int(mm.user_defined_controllers)
